@@ -136,7 +136,7 @@ def build_case(tname, gname, what, tier):
 
 def case(item):
     tname, gname, what, tier = item
-    key = f'{what} on {tname} with {gname} geometry' if what != 'bnormal' else f'normal on the boundary {tname} with {gname} geometry'
+    key = f'geometry defined through the basis of the coarse {tname} mesh, evaluated on its refinement of level {gname}' if what == 'basisgeom' else f'{what} on {tname} with {gname} geometry' if what != 'bnormal' else f'normal on the boundary {tname} with {gname} geometry'
     res = dict(key=key, viol=[], unconfirmed=[], q=dict(exact_unsat=0, margin_unsat=0, sat=0, unknown=0, trivial=0), status='ok', nontrivial=False)
     with treelog.set(treelog.NullLog()):
         if what in ('grad', 'div', 'laplace', 'curl'):
@@ -147,6 +147,15 @@ def case(item):
             lowtopo = topo
             elems = range(len(topo)) if len(topo) <= 4 else range(0, len(topo), max(1, len(topo) // 4))
             extra = lambda vals: []
+        elif what == 'basisgeom':
+            level = int(gname); pairs = []; lowtopo = None; extra = lambda vals: []
+            try:
+                nf = 8 * 4 ** level
+                for ie in sorted(set([0, nf // 3, nf - 1])):
+                    facts, spec, ft = basis_geometry_facts(level, ie)
+                    pairs.append((ie, ft, facts))
+            except Exception as ex:
+                res['status'] = f'build:{type(ex).__name__}:{str(ex)[:80]}'; return res
         elif what == 'bnormal':
             btopo = boundary_topologies(tier)[tname][0]
             nb = len(btopo)
@@ -160,7 +169,7 @@ def case(item):
                 res['status'] = f'build:{type(ex).__name__}:{str(ex)[:80]}'; return res
         else:
             pairs, spec, lowtopo, elems, extra = build_boundary_case(tname, gname, what, tier)
-        if what == 'bnormal':
+        if what in ('bnormal', 'basisgeom'):
             work = [(bt, ie, label, cand, ref) for ie, bt, facts in pairs for label, cand, ref in facts]
         elif lowtopo is None:     # per named boundary
             work = [(bt, i, label, cand, ref) for bt, eqs in pairs for i in range(min(len(bt), 2)) for label, cand, ref in eqs]
@@ -256,6 +265,47 @@ def normal_facts(bname, gname, tier, ie):
     facts = [(label, numpy.stack([c_ for l, c_, r_ in facts]), numpy.stack([r_ for l, c_, r_ in facts]))]
     return facts, spec, btopo
 
+# ---------------------------------------------------------------- geometries defined through a basis of a COARSER topology, evaluated on refinements
+
+def basis_geometry_facts(level, ie):
+    '''geometry x = sum_i C_i phi_i with phi the std-1 basis of the once refined 2x1 mesh and (concrete, dyadic) nodal values C, evaluated on element ie of the mesh refined `level` times.
+    On the coarse parent element x is the bilinear interpolant of its four nodal values: value, gradient with respect to the root geometry and J have closed forms in the
+    root coordinates, which reach the generated code through TransformCoords only (the relative TransformLinear / derivative-target path is what is being checked).'''
+    topo, geom0 = topologies('quick')['square']
+    topo = topo.refined          # the basis lives on a topology that is itself a refinement (its element transforms have a non-trivial linear part)
+    fine = topo
+    for _ in range(level): fine = fine.refined
+    basis = topo.basis('std', degree=1)
+    nd = len(basis)
+    # nodal values: concrete dyadic numbers (symbolic nodal values make the J^2 identity a degree-8 polynomial in 12 unknowns, out of reach within the budget);
+    # any nodal values define a piecewise bilinear map for which the three facts hold as polynomial identities in the local point
+    Cb = numpy.random.default_rng(5).integers(-8, 9, (nd, 2)) / 4.
+    g = numpy.einsum('i,ij->j', basis, Cb)
+    # parent element and its nodes (concrete)
+    with treelog.set(treelog.NullLog()):
+        X = numpy.asarray(ev.compile(lower_at(geom0, fine, ie))(dict(xi=numpy.full(2, .5))), dtype=float)       # root coordinate of the fine element's centre
+        verts = [numpy.array([0., .5, 1., 1.5, 2.]), numpy.array([0., 1., 2.])]
+        lo = numpy.array([v[numpy.searchsorted(v, x, side='right') - 1] for v, x in zip(verts, X)]); hi = numpy.array([v[numpy.searchsorted(v, x, side='right')] for v, x in zip(verts, X)])
+        # dof at each corner: the basis function that is 1 there
+        corners = {}
+        for cx in (0, 1):
+            for cy in (0, 1):
+                pt = numpy.array([[lo[0], hi[0]][cx], [lo[1], hi[1]][cy]])
+                smp = topo.locate(geom0, pt[numpy.newaxis], eps=1e-10)
+                vals = numpy.asarray(smp.eval(basis))[0]
+                corners[cx, cy] = int(numpy.argmax(vals))
+    h = hi - lo
+    s_ = (geom0 - lo) / h       # local bilinear coordinates of the parent, as functions of the root geometry
+    N = {(0, 0): (1 - s_[0]) * (1 - s_[1]), (1, 0): s_[0] * (1 - s_[1]), (0, 1): (1 - s_[0]) * s_[1], (1, 1): s_[0] * s_[1]}
+    dN = {(0, 0): [-(1 - s_[1]) / h[0], -(1 - s_[0]) / h[1]], (1, 0): [(1 - s_[1]) / h[0], -s_[0] / h[1]], (0, 1): [-s_[1] / h[0], (1 - s_[0]) / h[1]], (1, 1): [s_[1] / h[0], s_[0] / h[1]]}
+    gref = sum(N[c] * Cb[corners[c]] for c in N)
+    dref = numpy.stack([numpy.stack([sum(dN[c][k] * Cb[corners[c], j] for c in N) for k in range(2)]) for j in range(2)])     # d x_j / d X_k
+    det = dref[0, 0] * dref[1, 1] - dref[0, 1] * dref[1, 0]
+    facts = [('value of a basis-defined geometry on a refined element', g, gref),
+             ('gradient with respect to the root geometry', function.grad(g, geom0), dref),
+             ('J(x)^2 == det(dx/dX)^2 J(X)^2', function.J(g) ** 2, det ** 2 * function.J(geom0) ** 2)]
+    return facts, {}, fine
+
 def build_boundary_case(tname, gname, what, tier):
     topo, geom0 = topologies(tier)[tname]
     n = topo.ndims
@@ -302,6 +352,8 @@ def replay(item, label, ielem, cv):
                 pairs, spec, topo, geom, Gname = build_case(tname, gname, what, tier); lowtopo = topo
             elif what == 'bnormal':
                 pairs, spec, lowtopo = normal_facts(tname, gname, tier, ielem)
+            elif what == 'basisgeom':
+                pairs, spec, lowtopo = basis_geometry_facts(int(gname), ielem)
             else:
                 pairs, spec, lowtopo, elems, extra = build_boundary_case(tname, gname, what, tier)
                 if lowtopo is None:
@@ -340,6 +392,7 @@ def main(argv=None):
             for what in ['grad', 'div', 'laplace'] + (['curl'] if n == 3 else []) + ['jacobian']:      # normals: the bnormal cases below
                 if what == 'laplace' and gname == 'quadratic' and tier == 'quick': continue
                 items.append((tname, gname, what, tier))
+    for level in ((0, 1, 2) if tier == 'quick' else (0, 1, 2, 3)): items.append(('square', str(level), 'basisgeom', tier))
     for bname, v in boundary_topologies(tier).items():
         if isinstance(v, str): run.unconfirmed(bname, v); continue
         gnames = ['affine-A', 'affine-B']
